@@ -35,11 +35,19 @@ class SelectNode:
         """
         if self.keyword=='int':
             value = IntegerType(self.cast_value(node.value_raw), node.units_raw)
+            if node.units_raw and not self.units_raw and env.envtype != EnvType.DOCS:
+                # this node has no unit: only an option in a dimensionless unit (%, m/km ...) is a plain number
+                value.convert('1', env)
+                value.unit = None
             # converted here, where the units defined in the text are known (not later, when the option is compared)
             value.convert(self.units_raw, env)
         elif self.keyword=='float':
             value = FloatType(self.cast_value(node.value_raw), node.units_raw)
             if not env.envtype == EnvType.DOCS:
+                if node.units_raw and not self.units_raw:
+                    # this node has no unit: only an option in a dimensionless unit (%, m/km ...) is a plain number
+                    value.convert('1', env)
+                    value.unit = None
                 value.convert(self.units_raw, env)
         elif self.keyword=='str':
             if isinstance(node.value_raw, str) and node.value_raw=='' and not (node.value_ref or node.value_fn or node.value_expr):
